@@ -21,7 +21,9 @@ NAMES = ["x.mmm", "y.mmm", "x.ms", "x.mmm.bak", "x.transpiled.mmm", ".mmm", "mmm
          # os.fsencode() turns "\udce9" into the single byte 0xE9
          "caf\udce9.mmm", "\udcff.mmm", "x.mmm\udce9", "caf\udce9.ms",
          # siblings that differ only in letter case / form one prefix of the other (entries must be handled one by one)
-         "X.mmm", "Vector.mmm", "vector.mmm", "VECTOR.mmm", "x.mmm.mmm", "x"]
+         "X.mmm", "Vector.mmm", "vector.mmm", "VECTOR.mmm", "x.mmm.mmm", "x",
+         # hidden files that ARE bytecode files by their extension (a leading dot is part of the stem)
+         ".demo.mmm", ".cache.v2.mmm", "..mmm", ".x.ms"]
 _WORDS = ["transpiled", "mmm", "ms", "clean", "mscript"]
 STEMS = sorted(set([c + ".mmm" for c in "abcdefghijklmnopqrstuvwxyzABCDEFGHIJKLMNOPQRSTUVWXYZ0123456789_-"]
                    + [w[i:] + ".mmm" for w in _WORDS for i in range(len(w))] + [w[:i] + ".mmm" for w in _WORDS for i in range(1, len(w) + 1)]
